@@ -5,25 +5,37 @@
 (* IOEnv.TRACE_FILE is a JSON array of traces; a trace is an array of      *)
 (* events recorded by harness/c11_loop.py from a REAL mystic solver that   *)
 (* ran solver.Solve() (or a manual Step()/Collapse() loop) under           *)
-(* Or(stop, CollapseAt(..), CollapseAs(..)):                               *)
+(* Or(stop, CollapseAt(..), CollapseAs(..)) -- or, on a flattened product  *)
+(* measure (harness/c11_measure.py), under Or(stop, CollapseWeight(..),    *)
+(* CollapsePosition(..)):                                                  *)
 (*   New       kind, conf (the termination: see Collapse.tla `conf`)       *)
-(*   CostCall  x   -- the user's cost was called at x (after the first     *)
-(*                    applied collapse; before it nothing is demanded)     *)
+(*   CostCall  x, mass -- the user's cost was called at x (after the first *)
+(*                    applied collapse; before it nothing is demanded);    *)
+(*                    mass: one record per factor of a product measure --  *)
+(*                    same: the factor's total weight at x is that of the  *)
+(*                    candidate the solver's constraints were applied to;  *)
+(*                    cz: the weights of the factor that are exactly 0 in  *)
+(*                    that candidate (computed by the harness from the     *)
+(*                    numbers)                                             *)
 (*   Stop      msg, h, len -- the inner loop returned: members named by    *)
 (*                    the stop message ("limit": the solver's own limits), *)
 (*                    the last <= K step-monitor points,                   *)
 (*                    min(length of the step monitor, K+1)                 *)
-(*   Collapse  ra, rs, vals, before, after -- Collapse() returned a        *)
-(*                    non-empty collapse: reported indices and pairs, pin  *)
-(*                    values (UNSET for target=None), the termination's    *)
-(*                    masks read before and after the call                 *)
+(*   Collapse  ra, rs, vals, rw, rp, before, after -- Collapse() returned  *)
+(*                    a non-empty collapse: reported indices and pairs,    *)
+(*                    pin values (UNSET for target=None), reported weights *)
+(*                    (m,k) and position pairs (m,(i,j)), the              *)
+(*                    termination's masks read before and after the call   *)
 (*   NoCollapse before, after -- Collapse() returned nothing               *)
 (*   End       best -- Solve returned (or the manual loop ended)           *)
 (* All parameter values (x, h, best, targets) are integer ids interned per *)
 (* trace by exact float equality, so "pinned at its target" and "equal to  *)
 (* its partner" are decided HERE, by Holds() of Collapse.tla, on ids.      *)
 (* With tolerance 0 (conf.exact) the detectors themselves can be evaluated *)
-(* on ids (ptp <= 0 iff all equal; |x - t| <= 0 iff equal), and the stop   *)
+(* on ids (ptp <= 0 iff all equal; |x - t| <= 0 iff equal; for measures the *)
+(* ids are SIGNED: 0.0 has id 0, positive values positive ids, negative    *)
+(* values negative ids, so "weight <= 0" can be read off an id and "weight *)
+(* is exactly 0" is "id = 0"), and the stop                                *)
 (* message and the reported collapse must be what MsgOf / Detect \ mask    *)
 (* give on the recorded window.                                            *)
 (*                                                                         *)
@@ -48,10 +60,14 @@ Tr == Traces[tid]
 E  == Tr[l]
 
 AsMask(m) == [none |-> m.none, idx |-> ToSet(m.idx), prs |-> ToSet(m.prs)]
-AsMasks(m) == [at |-> AsMask(m.at), as |-> AsMask(m.as)]
+AsMMask(m) == [fmt |-> m.fmt, els |-> ToSet(m.els)]
+AsFlags(f) == [i \in 1..Len(f) |-> [same |-> f[i].same, cz |-> ToSet(f[i].cz)]]
+AsMasks(m) == [at |-> AsMask(m.at), as |-> AsMask(m.as), wt |-> AsMMask(m.wt), ps |-> AsMMask(m.ps)]
 AsConf(c) == [atOn |-> c.atOn, asOn |-> c.asOn, atTol |-> c.atTol, atG |-> c.atG, atTgt |-> c.atTgt,
               asTol |-> c.asTol, asG |-> c.asG, initAt |-> AsMask(c.initAt), initAs |-> AsMask(c.initAs),
-              exact |-> c.exact]
+              exact |-> c.exact,
+              npts |-> c.npts, wtOn |-> c.wtOn, psOn |-> c.psOn, wtTol |-> c.wtTol, wtG |-> c.wtG,
+              psTol |-> c.psTol, psG |-> c.psG, initWt |-> AsMMask(c.initWt), initPs |-> AsMMask(c.initPs)]
 
 Failing(cl) == {cl[i][1] : i \in {j \in DOMAIN cl : ~cl[j][2]}}
 AllTrue(cl) == \A i \in DOMAIN cl : cl[i][2]
@@ -64,8 +80,8 @@ TraceInit ==
   /\ Traces[tid][1].ev = "New"
   /\ conf = AsConf(Traces[tid][1].conf)
   /\ hist = << >> /\ len = 0
-  /\ mk = [at |-> conf.initAt, as |-> conf.initAs]
-  /\ pin = [i \in Index |-> FREE] /\ tied = {} /\ cons = << >>
+  /\ mk = [at |-> conf.initAt, as |-> conf.initAs, wt |-> conf.initWt, ps |-> conf.initPs]
+  /\ pin = [i \in Index |-> FREE] /\ tied = {} /\ zw = {} /\ tp = {} /\ zold = {} /\ cons = << >>
   /\ pc = "run" /\ msg = {}
   /\ rep = NoRep /\ prev = mk /\ ever = NoRep /\ ncol = 0 /\ script = << >>
 
@@ -74,11 +90,11 @@ TraceInit ==
 TraceCostCall ==
   /\ IsEvent("CostCall")
   /\ pc = "run"
-  /\ IF Holds(E.x)
-     THEN CostCall(E.x) /\ UNCHANGED dev
-     ELSE /\ dev' = dev \cup {"evaluated-point:" \o w : w \in WhyFor(pin, tied, E.x)}
+  /\ IF Holds(E.x, AsFlags(E.mass))
+     THEN CostCall(E.x, AsFlags(E.mass)) /\ UNCHANGED dev
+     ELSE /\ dev' = dev \cup {"evaluated-point:" \o w : w \in WhyAll(E.x, AsFlags(E.mass))}
           /\ pin' = Resolve(pin, E.x)
-          /\ UNCHANGED <<conf, hist, len, mk, tied, cons, pc, msg, rep, prev, ever, ncol, script>>
+          /\ UNCHANGED <<conf, hist, len, mk, tied, zw, tp, zold, cons, pc, msg, rep, prev, ever, ncol, script>>
 
 (* the inner loop returned with a message *)
 TraceStop ==
@@ -88,16 +104,18 @@ TraceStop ==
          cl == <<
            <<"stop:message-names-only-installed-conditions",
                /\ m # {} /\ ("limit" \in m => m = {"limit"})
-               /\ m \subseteq {"stop", "limit"} \cup (IF conf.atOn THEN {"at"} ELSE {}) \cup (IF conf.asOn THEN {"as"} ELSE {})>>,
+               /\ m \subseteq {"stop", "limit"} \cup (IF conf.atOn THEN {"at"} ELSE {}) \cup (IF conf.asOn THEN {"as"} ELSE {})
+                                \cup (IF conf.wtOn THEN {"wt"} ELSE {}) \cup (IF conf.psOn THEN {"ps"} ELSE {})>>,
            <<"stop:collapse-condition-silent-until-history-longer-than-window",
-               ("at" \in m => E.len > conf.atG) /\ ("as" \in m => E.len > conf.asG)>>,
+               /\ ("at" \in m => E.len > conf.atG) /\ ("as" \in m => E.len > conf.asG)
+               /\ ("wt" \in m => E.len > conf.wtG) /\ ("ps" \in m => E.len > conf.psG)>>,
            <<"stop:collapse-members-are-what-the-detectors-report-on-the-recorded-window",
                (conf.exact /\ E.h # << >> /\ "limit" \notin m) => m = MsgOf(E.h, E.len, "stop" \in m)>> >>
      IN  /\ hist' = E.h /\ len' = E.len
          /\ IF AllTrue(cl) THEN StopWith(m) /\ UNCHANGED dev
             ELSE /\ dev' = dev \cup Failing(cl)
                  /\ pc' = "stopped" /\ msg' = m
-                 /\ UNCHANGED <<conf, mk, pin, tied, cons, rep, prev, ever, ncol, script>>
+                 /\ UNCHANGED <<conf, mk, pin, tied, zw, tp, zold, cons, rep, prev, ever, ncol, script>>
 
 (* Collapse() returned a non-empty collapse *)
 TraceCollapse ==
@@ -106,30 +124,39 @@ TraceCollapse ==
   /\ LET ra == ToSet(E.ra)
          rs == ToSet(E.rs)
          vals == [i \in Index |-> E.vals[i + 1]]
+         rw == ToSet(E.rw)
+         rp == ToSet(E.rp)
          before == AsMasks(E.before)
          after == AsMasks(E.after)
          cl == <<
            <<"collapse:applied-only-when-nothing-but-collapse-conditions-stopped-the-solver",
-               msg # {} /\ msg \subseteq {"at", "as"}>>,
+               msg # {} /\ msg \subseteq CollapseMembers>>,
            <<"collapse:reports-for-exactly-the-named-members",
-               (ra # {} <=> "at" \in msg) /\ (rs # {} <=> "as" \in msg)>>,
-           <<"collapse:reported-are-parameters-and-pairs", ra \subseteq Index /\ rs \subseteq PairsOf(N)>>,
+               /\ (ra # {} <=> "at" \in msg) /\ (rs # {} <=> "as" \in msg)
+               /\ (rw # {} <=> "wt" \in msg) /\ (rp # {} <=> "ps" \in msg)>>,
+           <<"collapse:reported-are-parameters-and-pairs",
+               ra \subseteq Index /\ rs \subseteq PairsOf(N) /\ rw \subseteq AllWt /\ rp \subseteq AllPs>>,
            <<"collapse:mask-unchanged-since-the-previous-collapse", before = mk>>,
            <<"collapse:reported-disjoint-from-mask",
-               ra \cap mk.at.idx = {} /\ \A q \in rs : ~MaskedPair(q, mk.as)>>,
-           <<"collapse:never-reported-twice", ra \cap ever.at = {} /\ rs \cap ever.as = {}>>,
-           <<"collapse:mask-after-is-mask-before-plus-reported", after = MaskAfter("extend", mk, ra, rs)>>,
+               /\ ra \cap mk.at.idx = {} /\ \A q \in rs : ~MaskedPair(q, mk.as)
+               /\ rw \cap mk.wt.els = {} /\ \A e \in rp : ~MaskedPos(e, mk.ps.els)>>,
+           <<"collapse:never-reported-twice",
+               ra \cap ever.at = {} /\ rs \cap ever.as = {} /\ rw \cap ever.wt = {} /\ rp \cap ever.ps = {}>>,
+           <<"collapse:mask-after-is-mask-before-plus-reported", after = MaskAfter("extend", mk, ra, rs, rw, rp)>>,
            <<"collapse:reported-is-detect-minus-mask-on-the-recorded-window",
-               (conf.exact /\ hist # << >>) => (ra = RepNowAt /\ rs = RepNowAs)>>,
+               (conf.exact /\ hist # << >>) => (ra = RepNowAt /\ rs = RepNowAs /\ rw = RepNowWt /\ rp = RepNowPs)>>,
            <<"collapse:number-of-collapses-bounded-by-parameters-plus-pairs",
-               ncol < N + Cardinality(PairsOf(N))>> >>
-     IN  IF AllTrue(cl) THEN CollapseWith(ra, rs, vals) /\ UNCHANGED dev
+               ncol < N + Cardinality(PairsOf(N)) + Cardinality(AllWt) + Cardinality(AllPs)>> >>
+     IN  IF AllTrue(cl) THEN CollapseWith(ra, rs, vals, rw, rp) /\ UNCHANGED dev
          ELSE /\ dev' = dev \cup Failing(cl)
-              /\ prev' = mk /\ rep' = [at |-> ra, as |-> rs]
+              /\ prev' = mk /\ rep' = [at |-> ra, as |-> rs, wt |-> rw, ps |-> rp]
               /\ mk' = after
               /\ pin' = PinAfter(pin, ra \cap Index, vals)
               /\ tied' = tied \cup (rs \cap PairsOf(N))
-              /\ ever' = [at |-> ever.at \cup ra, as |-> ever.as \cup rs]
+              /\ zw' = zw \cup (rw \cap AllWt)
+              /\ tp' = tp \cup (rp \cap AllPs)
+              /\ zold' = zold \cup OldOf(zw, tp, rw \cap AllWt)
+              /\ ever' = [at |-> ever.at \cup ra, as |-> ever.as \cup rs, wt |-> ever.wt \cup rw, ps |-> ever.ps \cup rp]
               /\ ncol' = ncol + 1
               /\ pc' = "run" /\ msg' = {}
               /\ UNCHANGED <<conf, hist, len, cons, script>>
@@ -144,7 +171,7 @@ TraceNoCollapse ==
            <<"collapse:mask-unchanged-when-nothing-is-applied", AsMasks(E.after) = mk>> >>
      IN  /\ dev' = dev \cup Failing(cl)
          /\ mk' = AsMasks(E.after)
-         /\ UNCHANGED <<conf, hist, len, pin, tied, cons, pc, msg, rep, prev, ever, ncol, script>>
+         /\ UNCHANGED <<conf, hist, len, pin, tied, zw, tp, zold, cons, pc, msg, rep, prev, ever, ncol, script>>
 
 (* Solve returned *)
 TraceEnd ==
@@ -152,11 +179,11 @@ TraceEnd ==
   /\ pc = "stopped"
   /\ LET cl == <<
            <<"end:solve-returns-only-on-a-stop-condition", Final(msg)>> >>
-         why == {"final-solution:" \o w : w \in WhyFor(pin, tied, E.best)}
+         why == {"final-solution:" \o w : w \in WhyAll(E.best, AllMass)}         \* (no candidate: the mass clause does not apply)
      IN  IF AllTrue(cl) /\ why = {} THEN Finish /\ UNCHANGED dev
          ELSE /\ dev' = dev \cup Failing(cl) \cup why
               /\ pc' = "done"
-              /\ UNCHANGED <<conf, hist, len, mk, pin, tied, cons, msg, rep, prev, ever, ncol, script>>
+              /\ UNCHANGED <<conf, hist, len, mk, pin, tied, zw, tp, zold, cons, msg, rep, prev, ever, ncol, script>>
 
 TraceNext == TraceCostCall \/ TraceStop \/ TraceCollapse \/ TraceNoCollapse \/ TraceEnd
 TraceSpec == TraceInit /\ [][TraceNext]_tvars
@@ -168,7 +195,8 @@ TrMaskGrewByReported == dev = {} => MaskGrewByReported
 TrMaskBounded == dev = {} => MaskBounded
 TrCollapseBound == dev = {} => CollapseBound
 TrMaskMonotone == [][dev' = {} => (/\ mk.at.idx \subseteq mk'.at.idx /\ mk.as.prs \subseteq mk'.as.prs
-                                   /\ mk.as.idx \subseteq mk'.as.idx)]_tvars
+                                   /\ mk.as.idx \subseteq mk'.as.idx
+                                   /\ mk.wt.els \subseteq mk'.wt.els /\ mk.ps.els \subseteq mk'.ps.els)]_tvars
 
 -----------------------------------------------------------------------------
 (* acceptance bookkeeping: register 1 = {<<tid, dev>>} of the traces matched to their end (which must be the *)
